@@ -237,12 +237,9 @@ def run(ctx):
     n = ctx.scale(900, 60000)
     budget = 44 if ctx.quick else 420
     base = ctx.seed * 1000003 + (ctx.worker or 0) * 100003
-    import time as _t
-    # wall-clock only bounds the amount of work (never a verdict); keep a minimum of work when start-up on a busy box ate the budget
-    t_end = _t.time() + max(15 if ctx.quick else 120, ctx.time_left(budget))
     n_min = 25 if ctx.quick else 150      # per worker, whatever the box is doing: the floors below must never depend on the load
     for i in range(n):
-        if i >= n_min and _t.time() > t_end:
+        if i >= n_min and ctx.time_left(budget) < 0:          # CPU-time budget (vlib/run.py), wall-clock capped
             ctx.note("stopped by time budget after %d histories" % i)
             break
         seed = base + i
